@@ -266,7 +266,10 @@ def run_bytime(item, only=None):
     starts = [None, la.localize(datetime(2019, 3, 10, 1, 30)), datetime(2018, 11, 4, 9, 15, 7, tzinfo=timezone.utc), pytz.timezone("Asia/Kolkata").localize(datetime(2019, 6, 1, 0, 0))]
     ends = [None, la.localize(datetime(2019, 3, 11, 3, 30)), datetime(2019, 1, 1, 0, 0, tzinfo=timezone.utc)]
     docs = [mkdoc(i) for i in range(4)]
-    for st, en, me, ts in itertools.product(starts, ends, (None, 0, 7.5), (False, True)):
+    combos = list(itertools.product(starts, ends, (None, 0, 7.5), (False, True)))
+    # thresholds with many significant digits / large magnitude (the filter must carry the number the caller gave)
+    combos += [(st, en, me, False) for st in starts[:2] for en in ends[:2] for me in (12.345678, 1234567, 0.1 + 0.2, 2.5e-7, 123456789.25)]
+    for st, en, me, ts in combos:
         ctx = {"start": st.isoformat() if st else None, "end": en.isoformat() if en else None, "min_energy": me, "ts": ts}
         if only is not None and only != ctx:
             continue
@@ -289,9 +292,19 @@ def run_bytime(item, only=None):
             clauses.append('connectionTime >= "%s"' % fmt(st))
         if en is not None:
             clauses.append('connectionTime <= "%s"' % fmt(en))
-        if me is not None:
-            clauses.append("kWhDelivered > %s" % me)
         got_clauses = [c for c in qd.get("where", "").split(" and ") if c]
+        if me is not None:
+            # the energy clause is compared as a NUMBER (how it is spelled is the client's business)
+            ec = [c for c in got_clauses if c.startswith("kWhDelivered")]
+            got_clauses = [c for c in got_clauses if not c.startswith("kWhDelivered")]
+            ok_e = False
+            if len(ec) == 1 and ec[0].startswith("kWhDelivered > "):
+                try:
+                    ok_e = float(ec[0][len("kWhDelivered > "):]) == float(me)
+                except ValueError:
+                    ok_e = False
+            if not ok_e:
+                rep("bytime:filter:min-energy", "where=%r: energy clause %s does not say kWhDelivered > %r" % (qd.get("where"), ec, me), ec, me, ctx)
         if got_clauses != clauses:
             rep("bytime:filter", "where=%r, expected clauses %s" % (qd.get("where"), clauses), got_clauses, clauses, ctx)
         if qd.get("sort") != "connectionTime":
